@@ -78,11 +78,18 @@ def simplify_ops(trace, signature, known, budget):
     return trace
 
 
-def minimise(trace, signature, known=frozenset(), max_replays=1500):
-    budget = [max_replays]
+def minimise(trace, signature, known=frozenset(), max_replays=1500, max_seconds=90.0):
+    import time
+
     original_len = len(trace["ops"])
+    t0 = time.time()
     if not _fails(trace, signature, known):
         return trace, {"minimised": False, "reason": "original trace does not replay", "replays": 1}
+    # bound the wall time of minimisation: the budget is a number of replays derived from the cost of
+    # one replay of the unminimised trace (candidates only get cheaper)
+    one = max(time.time() - t0, 1e-4)
+    max_replays = int(max(40, min(max_replays, max_seconds / one)))
+    budget = [max_replays]
     t = ddmin_ops(trace, signature, known, budget)
     t = simplify_ops(t, signature, known, budget)
     t = ddmin_ops(t, signature, known, budget)
